@@ -502,6 +502,12 @@ pub struct HistCase {
     /// the parser under test is built from clones of every combinator node (generated subjects)
     #[serde(default)]
     pub clone_nodes: bool,
+    /// A sibling grammar (same shape and allocation sizes, other symbols) that is built, run over the
+    /// pool and dropped on the history's thread right before the subject itself is built there: state
+    /// kept per thread or per process and keyed by an address (of a parser node, of a token set, of a
+    /// literal) is then stale for the subject. References are computed on pristine threads.
+    #[serde(default)]
+    pub prelude: Option<G>,
 }
 
 #[derive(Clone, Debug, Serialize, Deserialize)]
@@ -893,7 +899,30 @@ where
     }
 }
 
-pub fn run_spec(subject: &Subject, pool_syms: &[Vec<u8>], pool_text: &[String], reader_seed: u64, plan: Plan<'_>, pristine: bool, clone_nodes: bool) -> (Vec<Op>, Ran) {
+fn run_prelude<'a, I>(g0: &G, clone_nodes: bool, mk: &dyn Fn(usize) -> I, n: usize)
+where
+    I: crate::build::Caps<'a>,
+    I::Token: Tok,
+    I::Span: SpanX,
+{
+    let built = std::panic::catch_unwind(std::panic::AssertUnwindSafe(|| cloned_build::<I>(g0, clone_nodes)));
+    let Ok(p0) = built else {
+        let _ = hook::take_panic();
+        return;
+    };
+    for i in 0..n {
+        for mode in [PMode::Parse, PMode::Check] {
+            hook::begin_op(0, u64::MAX, u64::MAX);
+            hook::begin_ticks(REF_TICK_CAP);
+            let _ = exec::<I, _, _>(&p0, || mk(i), mode, state_seed(i));
+            hook::end_op();
+            hook::end_ticks();
+        }
+    }
+    drop(p0);
+}
+
+pub fn run_spec(subject: &Subject, pool_syms: &[Vec<u8>], pool_text: &[String], reader_seed: u64, plan: Plan<'_>, pristine: bool, clone_nodes: bool, prelude: Option<&G>) -> (Vec<Op>, Ran) {
     let n = pool_syms.len();
     let toks: Vec<Vec<u8>> = pool_syms.iter().map(|v| v.iter().map(|s| u8::from_sym(*s)).collect()).collect();
     let toks = &toks;
@@ -901,11 +930,39 @@ pub fn run_spec(subject: &Subject, pool_syms: &[Vec<u8>], pool_text: &[String], 
         Subject::Dyn { grammar, kind } => {
             let g = grammar;
             match kind {
-                InKind::Slice => drive_plain::<&[u8], BP<'_, &[u8]>>(&|| build::<&[u8]>(g), &|| cloned_build::<&[u8]>(g, clone_nodes), &move |i: usize| &toks[i][..], n, plan, pristine),
+                InKind::Slice => {
+                    let mk = move |i: usize| &toks[i][..];
+                    drive_plain::<&[u8], BP<'_, &[u8]>>(
+                        &|| build::<&[u8]>(g),
+                        &|| {
+                            if let Some(g0) = prelude {
+                                run_prelude::<&[u8]>(g0, clone_nodes, &mk, n);
+                            }
+                            cloned_build::<&[u8]>(g, clone_nodes)
+                        },
+                        &mk,
+                        n,
+                        plan,
+                        pristine,
+                    )
+                }
                 InKind::Str => {
                     let texts: Vec<String> = pool_syms.iter().map(|v| char_text(v)).collect();
                     let texts = &texts;
-                    drive_plain::<&str, BP<'_, &str>>(&|| build::<&str>(g), &|| cloned_build::<&str>(g, clone_nodes), &move |i: usize| &texts[i][..], n, plan, pristine)
+                    let mk = move |i: usize| &texts[i][..];
+                    drive_plain::<&str, BP<'_, &str>>(
+                        &|| build::<&str>(g),
+                        &|| {
+                            if let Some(g0) = prelude {
+                                run_prelude::<&str>(g0, clone_nodes, &mk, n);
+                            }
+                            cloned_build::<&str>(g, clone_nodes)
+                        },
+                        &mk,
+                        n,
+                        plan,
+                        pristine,
+                    )
                 }
                 InKind::Stream => drive_plain::<Stream<SimIter<u8>>, BP<'_, Stream<SimIter<u8>>>>(
                     &|| build::<Stream<SimIter<u8>>>(g),
@@ -945,7 +1002,11 @@ pub fn run_spec(subject: &Subject, pool_syms: &[Vec<u8>], pool_text: &[String], 
         Subject::CacheDyn { grammar } => {
             let g = grammar;
             let reuse = reader_seed & 3 != 0;
-            drive::<&[u8], BP<'_, &[u8]>>(&|| build::<&[u8]>(g), &move |i: usize| &toks[i][..], n, plan, pristine, &|ops| {
+            let mk = move |i: usize| &toks[i][..];
+            drive::<&[u8], BP<'_, &[u8]>>(&|| build::<&[u8]>(g), &mk, n, plan, pristine, &|ops| {
+                if let Some(g0) = prelude {
+                    run_prelude::<&[u8]>(g0, false, &mk, n);
+                }
                 run_cache_history_u8(&|| Cache::new(CG(g.clone())), n, &|i, buf: &mut Vec<u8>| buf.extend(pool_syms[i].iter().map(|s| u8::from_sym(*s))), reuse, ops)
             })
         }
@@ -1006,6 +1067,9 @@ impl HistSim {
             Subject::CacheDyn { .. } => "Cache[generated]".into(),
             Subject::DynRef { .. } => "&dyn-at-every-node".into(),
         }));
+        if case.prelude.is_some() {
+            acc.inc("histories.after_a_sibling_grammar_lived_and_died_on_the_thread(prelude)");
+        }
         if matches!(case.subject, Subject::ZooCache { .. } | Subject::CacheDyn { .. }) && case.reader_seed & 3 != 0 {
             acc.inc("histories.inputs_in_reused_buffer(same address, other content)");
         }
@@ -1198,8 +1262,8 @@ impl HistSim {
                         let mismatch = judge(&refs, &refs, &results);
                         if mismatch.is_some() {
                             // does this one history fail on its own (replayed as an ordinary case)?
-                            let case = HistCase { subject: Subject::Zoo { z }, pool_syms: vec![], pool_text: texts.to_vec(), ops: ops.clone(), reader_seed: 0, pristine: true, clone_nodes: false };
-                            let alone = on_pristine_thread(|| run_spec(&case.subject, &case.pool_syms, &case.pool_text, 0, Plan::Given(&case.ops), true, false).1);
+                            let case = HistCase { subject: Subject::Zoo { z }, pool_syms: vec![], pool_text: texts.to_vec(), ops: ops.clone(), reader_seed: 0, pristine: true, clone_nodes: false, prelude: None };
+                            let alone = on_pristine_thread(|| run_spec(&case.subject, &case.pool_syms, &case.pool_text, 0, Plan::Given(&case.ops), true, false, None).1);
                             if alone.mismatch.is_none() {
                                 // only after the earlier histories of this enumeration: the replay is the enumeration itself
                                 let m = mismatch.unwrap();
@@ -1215,7 +1279,7 @@ impl HistSim {
                                 return d;
                             }
                         }
-                        let case = HistCase { subject: Subject::Zoo { z }, pool_syms: vec![], pool_text: texts.to_vec(), ops, reader_seed: 0, pristine: true, clone_nodes: false };
+                        let case = HistCase { subject: Subject::Zoo { z }, pool_syms: vec![], pool_text: texts.to_vec(), ops, reader_seed: 0, pristine: true, clone_nodes: false, prelude: None };
                         let ran = Ran { mismatch, results, refs: BTreeMap::new(), discarded: false };
                         count += 1;
                         d = fold(d, me.record(acc, seed, idx, &case, &ran));
@@ -1227,7 +1291,7 @@ impl HistSim {
                 let refs2 = on_pristine_thread(|| references::<&str, P>(&fresh, &mk, &keys, REF_TICK_CAP));
                 acc.add("evaluations.reference_parses", 2 * refs.len() as u64);
                 if let Some(m) = judge(&refs, &refs2, &[]) {
-                    let case = HistCase { subject: Subject::Zoo { z }, pool_syms: vec![], pool_text: texts.to_vec(), ops: vec![], reader_seed: 0, pristine: true, clone_nodes: false };
+                    let case = HistCase { subject: Subject::Zoo { z }, pool_syms: vec![], pool_text: texts.to_vec(), ops: vec![], reader_seed: 0, pristine: true, clone_nodes: false, prelude: None };
                     let ran = Ran { mismatch: Some(m), results: vec![], refs: BTreeMap::new(), discarded: false };
                     d = fold(d, me.record(acc, seed, idx, &case, &ran));
                 }
@@ -1270,7 +1334,7 @@ pub fn gen_case(seed: u64, idx: u64) -> Option<(HistCase, Rng, GenOpsCfg)> {
             texts.push(all[rng.usize(all.len())].to_string());
         }
         let subject = if pick == 0 { Subject::Zoo { z } } else { Subject::ZooCache { z } };
-        return Some((HistCase { subject, pool_syms: vec![], pool_text: texts, ops: vec![], reader_seed, pristine, clone_nodes }, rng, cfg));
+        return Some((HistCase { subject, pool_syms: vec![], pool_text: texts, ops: vec![], reader_seed, pristine, clone_nodes, prelude: None }, rng, cfg));
     }
     let is_str = pick == 1 || pick == 2;
     let mut gcfg = GenCfg::swarm(&mut rng, true);
@@ -1307,8 +1371,15 @@ pub fn gen_case(seed: u64, idx: u64) -> Option<(HistCase, Rng, GenOpsCfg)> {
         5 => Subject::CacheDyn { grammar: g },
         _ => Subject::Dyn { grammar: g, kind: InKind::Slice },
     };
-    let _ = is_str;
-    Some((HistCase { subject, pool_syms: pool, pool_text: vec![], ops: vec![], reader_seed, pristine, clone_nodes }, rng, cfg))
+    // prelude (Slice / Str / Cache subjects): a sibling grammar lives and dies on the history's thread first
+    let prelude = if matches!(pick, 1 | 2 | 5 | 6 | 7 | 8) && rng.chance(1, 4) {
+        let (Subject::Dyn { grammar, .. } | Subject::CacheDyn { grammar }) = &subject else { unreachable!() };
+        Some(gram::sibling(grammar, &mut rng, gcfg.nsym, is_str))
+    } else {
+        None
+    };
+    let pristine = pristine || prelude.is_some();
+    Some((HistCase { subject, pool_syms: pool, pool_text: vec![], ops: vec![], reader_seed, pristine, clone_nodes, prelude }, rng, cfg))
 }
 
 impl Engine for HistSim {
@@ -1334,7 +1405,7 @@ impl Engine for HistSim {
             return self.enumerated(seed, idx, tier, acc);
         }
         let Some((mut case, mut rng, cfg)) = gen_case(seed, idx) else { return 0 };
-        let (ops, ran) = run_spec(&case.subject, &case.pool_syms, &case.pool_text, case.reader_seed, Plan::Gen(&mut rng, &cfg), case.pristine, case.clone_nodes);
+        let (ops, ran) = run_spec(&case.subject, &case.pool_syms, &case.pool_text, case.reader_seed, Plan::Gen(&mut rng, &cfg), case.pristine, case.clone_nodes, case.prelude.as_ref());
         case.ops = ops;
         acc.inc("evaluations.histories");
         self.record(acc, seed, idx, &case, &ran)
@@ -1346,7 +1417,7 @@ impl Engine for HistSim {
 
 pub fn replay(rp: &Replay) -> Option<(String, Option<usize>, Outcome, Outcome)> {
     let c = &rp.spec;
-    let (_, ran) = run_spec(&c.subject, &c.pool_syms, &c.pool_text, c.reader_seed, Plan::Given(&c.ops), c.pristine, c.clone_nodes);
+    let (_, ran) = run_spec(&c.subject, &c.pool_syms, &c.pool_text, c.reader_seed, Plan::Given(&c.ops), c.pristine, c.clone_nodes, c.prelude.as_ref());
     ran.mismatch.map(|m| (m.class, m.op, m.expected, m.observed))
 }
 
